@@ -6,8 +6,10 @@ from concurrent.futures import ProcessPoolExecutor, as_completed
 from concurrent.futures.process import BrokenProcessPool
 
 VERIF = os.path.dirname(os.path.dirname(os.path.abspath(__file__)))
-REPLAY_DIR = os.path.join(VERIF, 'replays')
-EVIDENCE_DIR = os.path.join(VERIF, 'evidence')
+# VERIF_OUT_DIR: self-tests against mutated scratch trees write their evidence/replays elsewhere
+_OUT = os.environ.get('VERIF_OUT_DIR') or VERIF
+REPLAY_DIR = os.path.join(_OUT, 'replays')
+EVIDENCE_DIR = os.path.join(_OUT, 'evidence')
 KNOWN_FILE = os.path.join(VERIF, 'known_findings.txt')
 
 
